@@ -206,10 +206,15 @@ func main() {
 		bitsOf(hdr, "class"), bitsOf(hdr, "brk"), bitsOf(hdr, "used"), bitsOf(hdr, "free"))
 	fmt.Fprintf(&sb, "def pageCacheLow : Nat := %d\ndef pageCacheHigh : Nat := %d\n", cacheLow, cacheHigh)
 	fmt.Fprintf(&sb, "def defragFromWasteMB : Nat := %d\ndef defragToWasteMB : Nat := %d\n", fromMB, toMB)
-	linkFacts(&sb)
-	lockFacts(&sb)
+	w := memoryWorld()
+	mf, ff := lockAnalysis(w)
+	linkFacts(&sb, w, mf.edit, ff.edit)
+	lockFacts(&sb, mf, ff)
 	sb.WriteString("\nend GocoinV.Gen.MemClasses\n")
 	out := vlib.Root() + "/lean/GocoinV/Gen/MemClasses.lean"
+	if o := os.Getenv("GEN_C20_OUT"); o != "" { // experiments: leave the shared Gen/ file alone
+		out = o
+	}
 	os.Remove(out)
 	if err := os.WriteFile(out, []byte(sb.String()), 0644); err != nil {
 		die(err)
